@@ -127,7 +127,12 @@ impl Repository {
     /// the directory is invalid, e.g. a version file is missing.
     pub fn from_existing_base(platform: Platform, dir: &str) -> Option<Repository> {
         let path = Path::new(dir);
+        #[cfg(not(feature = "verif_sim"))]
         if path.metadata().is_err() {
+            return None;
+        }
+        #[cfg(feature = "verif_sim")]
+        if crate::vfs::metadata(path).is_err() {
             return None;
         }
 
@@ -147,7 +152,12 @@ impl Repository {
     /// the directory is invalid, e.g. a version file is missing.
     pub fn from_existing_expansion(platform: Platform, dir: &str) -> Option<Repository> {
         let path = Path::new(dir);
+        #[cfg(not(feature = "verif_sim"))]
         if path.metadata().is_err() {
+            return None;
+        }
+        #[cfg(feature = "verif_sim")]
+        if crate::vfs::metadata(path).is_err() {
             return None;
         }
 
